@@ -419,7 +419,13 @@ def rule_v2(ck, prog, S, model):
                         filt_facts[l] = is_none
         nofilter = filt_facts.get("register_group.ptfilt") and filt_facts.get("register_group.ntfilt")
         extra = set(leaves) - {ev, old, new, pt, nt}
-        if extra:
+        if extra and all(x.startswith("reg:") for x in extra):
+            # the value latched depends on the content of another register than the group's own event register
+            ck.violated("C12-V2", st, where,
+                        "the value stored to the event register is computed from %s instead of the old content of the group's event "
+                        "register: earlier latched events are lost / foreign bits are latched"
+                        % sorted(x[4:] for x in extra), {"leaves": sorted(leaves)})
+        elif extra:
             ck.undecided("C12-V2", st, where, "latch formula depends on unexpected inputs %s" % sorted(extra))
             continue
         if nofilter:
